@@ -142,7 +142,6 @@ Proof.
 Qed.
 
 (* ================================================================= _calc_change *)
-Definition covers (arr : list masset) (m : masset) : Prop := forall p n, sum_content arr p n = content m p n.
 
   Lemma wfv_requested fee outs : Forall wfv outs ->
     coin (requested fee outs) = fee + sum_coin outs
@@ -413,9 +412,7 @@ Proof.
 Qed.
 
 (* ================================================================= the body conserves value *)
-(* the ledger environment the builder assumes: its own protocol parameters, and
-   initial_stake_pool_registration = "none of the pools registered here is known to the chain" *)
-Definition ledger_params (st : bstate) : params := mkParams (b_kd st) (b_pd st) (fun _ => negb (b_initial st)).
+
 
 (* what the implementation's packing must satisfy at the change value it is applied to *)
 Definition pack_ok (pack : value -> option (list masset)) (v : value) : Prop :=
@@ -531,23 +528,7 @@ Proof.
   apply (G []). exact H.
 Qed.
 
-(* build () after selection: self.inputs = ins; _add_change_and_fee; _build_tx_body *)
-Definition build_tail (minada : value -> Z) (pack : value -> option (list masset)) (est : list output -> Z -> Z)
-           (st : bstate) (merge : bool) (ins : list utxo) (outs : list output) (fee0 : Z)
-  : cc_err + (list (bytes * N) * list output * Z) :=
-  match add_change_and_fee minada pack est st merge (map u_val ins) outs fee0 with
-  | inl e => inl e
-  | inr (outs', fee') => inr (dedup_txins (map u_in ins), outs', fee')
-  end.
 
-Fixpoint resolve_all (m : list utxo) (l : list (bytes * N)) : option (list value) :=
-  match l with
-  | [] => Some []
-  | i :: r => match resolve m i, resolve_all m r with
-              | Some v, Some vs => Some (v :: vs)
-              | _, _ => None
-              end
-  end.
 
 Lemma resolve_all_map m ins : (forall u, In u ins -> resolve m (u_in u) = Some (u_val u)) ->
   resolve_all m (map u_in ins) = Some (map u_val ins).
@@ -597,3 +578,173 @@ Proof.
   destruct (is_nil (massets (v_sub (provided st (map u_val ins)) (requested fee (map snd outs))))); [exact Ws|].
   apply m_filter_wfm. exact Ws.
 Qed.
+
+(* ================================================================= liveness for ADA-only wallets (partial) *)
+
+Lemma fold_ada_only l : forall c, ada_only l -> fold_left v_add l (mkValue c []) = mkValue (c + sum_coin l) [].
+Proof.
+  induction l as [|v l IH]; intros c H; cbn [fold_left].
+  - unfold sum_coin. cbn. f_equal. lia.
+  - inversion H as [|? ? Hv Hl]; subst. destruct v as [cv mv]. cbn in Hv. subst mv.
+    change (v_add (mkValue c []) (mkValue cv [])) with (mkValue (c + cv) []).
+    rewrite IH by exact Hl. rewrite sum_coin_cons. cbn [coin]. f_equal. lia.
+Qed.
+
+Lemma v_lt_ada a b : v_lt (mkValue a []) (mkValue b []) = (a <? b).
+Proof.
+  unfold v_lt, v_le, v_eq. cbn.
+  destruct (a <=? b) eqn:E1, (a =? b) eqn:E2, (a <? b) eqn:E3; cbn; try reflexivity;
+    rewrite ?Z.leb_le, ?Z.leb_gt, ?Z.eqb_eq, ?Z.eqb_neq, ?Z.ltb_lt, ?Z.ltb_ge in *; lia.
+Qed.
+
+Section Live.
+  Variable minada : value -> Z.
+  Variable pack : value -> option (list masset).
+
+  Lemma calc_change_ada st respect fee ins outs minc :
+    ada_only ins -> ada_only outs -> b_mint st = [] ->
+    (forall c, minada (mkValue c []) <= minc) -> 0 < minc ->
+    coin (provided st ins) >= fee + sum_coin outs + minc ->
+    exists c, calc_change minada pack st respect fee ins outs = inr [mkValue c []].
+  Proof.
+    intros Ai Ao Hm Hmin Hpos Hc.
+    assert (R : requested fee outs = mkValue (fee + sum_coin outs) []) by (apply fold_ada_only; exact Ao).
+    assert (P : exists c, provided st ins = mkValue c []).
+    { unfold provided. rewrite Hm. cbn [is_nil]. rewrite (fold_ada_only ins 0 Ai). cbn [coin massets]. eauto. }
+    destruct P as [c P]. rewrite P in Hc. cbn [coin] in Hc.
+    unfold calc_change, change_of. rewrite R, P, v_lt_ada.
+    assert (L : (fee + sum_coin outs <? c) = true) by (apply Z.ltb_lt; lia). rewrite L. cbn [negb].
+    change (v_sub (mkValue c []) (mkValue (fee + sum_coin outs) [])) with (mkValue (c - (fee + sum_coin outs)) []).
+    cbn [massets is_nil coin].
+    assert (M : (c - (fee + sum_coin outs) <? minada (mkValue (c - (fee + sum_coin outs)) [])) = false).
+    { apply Z.ltb_ge. specialize (Hmin (c - (fee + sum_coin outs))). lia. }
+    rewrite M, andb_false_r. eauto.
+  Qed.
+
+  (* C06_live_partial: an ADA-only transaction whose provided funds exceed outputs + the largest fee the
+     estimator can return + the largest min-ADA of an ADA-only change output is not refused by
+     _add_change_and_fee, for any fee estimator bounded by maxfee.
+     Partial: the UTxO selection phase of build () is not part of this statement (see C14). *)
+  Theorem acf_live est st merge ins (outs : list output) fee0 maxfee minc :
+    ada_only ins -> ada_only (map snd outs) -> b_mint st = [] ->
+    (forall o f, est o f <= maxfee) ->
+    (forall c, minada (mkValue c []) <= minc) -> 0 < minc ->
+    coin (provided st ins) >= sum_coin (map snd outs) + maxfee + minc ->
+    exists outs' fee', add_change_and_fee minada pack est st merge ins outs fee0 = inr (outs', fee').
+  Proof.
+    intros Ai Ao Hm He Hmin Hpos Hc. unfold add_change_and_fee.
+    destruct (calc_change_ada st (negb merge) (est outs fee0) ins (map snd outs) minc Ai Ao Hm Hmin Hpos) as [c1 E1].
+    { specialize (He outs fee0). lia. }
+    rewrite E1.
+    match goal with |- context [est ?o ?f] =>
+      match o with outs => fail 1 | _ =>
+        destruct (calc_change_ada st (negb merge) (est o f) ins (map snd outs) minc Ai Ao Hm Hmin Hpos) as [c2 E2];
+        [specialize (He o f); lia | rewrite E2; eauto] end end.
+  Qed.
+End Live.
+
+(* ================================================================= explicit inputs: duplicates are counted once *)
+
+Lemma NoDup_app_one {A} (l : list A) x : NoDup l -> ~ In x l -> NoDup (l ++ [x]).
+Proof.
+  induction l as [|y l IH]; intros N H; cbn; [constructor; [intros []|constructor]|].
+  inversion N as [|? ? Hy Hl]; subst. constructor.
+  - intros X. apply in_app_or in X as [X|[X|[]]]; [contradiction | subst; apply H; now left].
+  - apply IH; [exact Hl | intros X; apply H; now right].
+Qed.
+
+Lemma dedup_utxos_spec l : forall acc,
+  let r := fold_left (fun acc u => if existsb (utxo_eqb u) acc then acc else acc ++ [u]) l acc in
+  (forall u, In u r -> In u acc \/ In u l) /\
+  (consistent (acc ++ l) -> NoDup (map u_in acc) -> NoDup (map u_in r)).
+Proof.
+  induction l as [|x l IH]; intros acc; cbn [fold_left].
+  - split; [intros u H; now left | intros _ N; exact N].
+  - destruct (existsb (utxo_eqb x) acc) eqn:E.
+    + destruct (IH acc) as [I1 I2]. split.
+      * intros u H. destruct (I1 u H); [now left | right; now right].
+      * intros C N. apply I2; [|exact N]. intros a b Ha Hb. apply C.
+        -- apply in_app_or in Ha as [Ha|Ha]; apply in_or_app; [now left | right; now right].
+        -- apply in_app_or in Hb as [Hb|Hb]; apply in_or_app; [now left | right; now right].
+    + destruct (IH (acc ++ [x])) as [I1 I2]. split.
+      * intros u H. destruct (I1 u H) as [H1|H1]; [|right; now right].
+        apply in_app_or in H1 as [H1|[H1|[]]]; [now left | right; now left].
+      * intros C N. apply I2.
+        -- rewrite <- app_assoc. exact C.
+        -- rewrite map_app. cbn [map]. apply NoDup_app_one; [exact N|].
+           intros Hin. apply in_map_iff in Hin as (y & Ey & Hy).
+           assert (X : utxo_eqb x y = true).
+           { apply C; [apply in_or_app; now left | apply in_or_app; right; now left | exact Ey]. }
+           assert (F : existsb (utxo_eqb x) acc = true) by (apply existsb_exists; exists y; split; assumption).
+           congruence.
+Qed.
+
+Theorem dedup_utxos_nodup l : consistent l -> NoDup (map u_in (dedup_utxos l)).
+Proof. intros C. apply (dedup_utxos_spec l []); [exact C | constructor]. Qed.
+
+(* ================================================================= the code before fix d736adf dropped tokens *)
+(* max_val_size = 80 < size of a single asset with a 32-byte name: the final re-check fired, the loop was left and
+   the pending asset and every remaining policy vanished from the change (build () returned an unbalanced body) *)
+Definition wit_addr : bytes := hx "6011111111111111111111111111111111111111111111111111111111".
+Definition wit_pa : bytes := hx "aaaaaaaaaaaaaaaaaaaaaaaaaaaaaaaaaaaaaaaaaaaaaaaaaaaaaaaa".
+Definition wit_pb : bytes := hx "bbbbbbbbbbbbbbbbbbbbbbbbbbbbbbbbbbbbbbbbbbbbbbbbbbbbbbbb".
+Definition wit_n1 : bytes := hx "6161616161616161616161616161616161616161616161616161616161616161".
+Definition wit_n2 : bytes := hx "6262626262626262626262626262626262626262626262626262626262626262".
+Definition wit_change : value :=
+  mkValue 46829703 [(wit_pa, [(wit_n1, 5); (wit_n2, 9223372036854775808)]); (wit_pb, [(wit_n1, 18446744073709551615)])].
+
+Lemma wit_change_wfv : wfv wit_change.
+Proof.
+  split; cbn.
+  - repeat constructor; cbn; intuition discriminate.
+  - repeat constructor; cbn; intuition discriminate.
+Qed.
+
+Theorem pack_break_refuted :
+  exists cpb addr mvs change, wfv change /\ ~ covers (pack_model_old (ovf_c cpb addr mvs) change) (massets change).
+Proof.
+  exists 4310, wit_addr, 80, wit_change. split; [exact wit_change_wfv|].
+  intros H. specialize (H wit_pb wit_n1). vm_compute in H. discriminate.
+Qed.
+(* the current code refuses the same input *)
+Example pack_break_now_refused : pack_c 4310 wit_addr 80 wit_change = None.
+Proof. vm_compute. reflexivity. Qed.
+
+(* ================================================================= non-vacuity *)
+(* a concrete scenario: two UTxOs (one with tokens), mint +5 / burn -1, a withdrawal, a registration, a
+   deregistration, a pool registration, a proposal, a donation, one requested output, max_val_size 120 *)
+Definition ex_st : bstate :=
+  mkB [(wit_pa, [(hx "61", 5); (hx "62", -1)])] [777] [StakeReg; UnregConway 2000000; PoolReg wit_pb; RegDRep 500000000]
+      true [1000000] 1234567 2000000 500000000.
+Definition ex_ins : list utxo :=
+  [mkU wit_n1 0 wit_addr (mkValue 1600000000 []);
+   mkU wit_n1 1 wit_addr (mkValue 5000000 [(wit_pa, [(hx "62", 3); (wit_n2, 7)]); (wit_pb, [(wit_n1, 1000000)])])].
+Definition ex_outs : list output := [(false, mkValue 3000000 [(wit_pb, [(wit_n1, 10)])])].
+Definition ex_est (o : list output) (f : Z) : Z := 170000 + 3000 * Z.of_nat (length o).
+
+Example build_tail_example :
+  exists bins outs' fee',
+    build_tail (minada_c 4310 wit_addr) (pack_c 4310 wit_addr 120) ex_est ex_st false ex_ins ex_outs 0
+      = inr (bins, outs', fee')
+    /\ length outs' = 3%nat /\ fee' = 179000
+    /\ Forall wfv (map u_val ex_ins) /\ Forall wfv (map snd ex_outs) /\ wfm (b_mint ex_st) /\ NoDup (map u_in ex_ins).
+Proof.
+  eexists _, _, _. split; [vm_compute; reflexivity|].
+  split; [reflexivity|]. split; [reflexivity|].
+  repeat split; repeat constructor; cbn; intuition discriminate.
+Qed.
+
+Example calc_change_example :
+  exists chs, calc_change (minada_c 4310 wit_addr) (pack_c 4310 wit_addr 120) ex_st true 179000 (map u_val ex_ins) (map snd ex_outs)
+              = inr chs /\ length chs = 2%nat.
+Proof. eexists. split; [vm_compute; reflexivity | reflexivity]. Qed.
+
+Example key_deposit_example :
+  total_key_deposit 2000000 500000000 true (b_certs ex_st) = 1000000000
+  /\ deposits (ledger_params ex_st) (b_certs ex_st) = 1002000000 /\ refunds (ledger_params ex_st) (b_certs ex_st) = 2000000.
+Proof. vm_compute. repeat split. Qed.
+
+Example live_example :
+  let ins := [mkValue 10000000 []] in let outs := [(false, mkValue 3000000 [])] in
+  ada_only ins /\ ada_only (map snd outs) /\ coin (provided (mkB [] [] [] false [] 0 2000000 500000000) ins) >= 3000000 + 2000000 + 1500000.
+Proof. cbn. repeat split; repeat constructor; discriminate. Qed.
